@@ -5,66 +5,66 @@ import json, subprocess
 HOOK_COMMITS = ["09a7702","2a0a33e"]
 
 CHECKS = {
- "C01": ("model_checking", "bounded exhaustive BFS over host-call histories on the real interpreter (canonical-state dedup) + exhaustive line-shape sweep + recursion-depth probe grid in isolated children",
-         "Every protocol-respecting host-call history up to the depth bound over a 57-event alphabet (from 4 root states), every line of <= n atoms over 28 atoms, and an 8-route x 7-depth x 2-stack nesting grid were executed on the real code; the oracle is 'call returns, errors are values, state idle, error renders'.",
-         "alphabet/bounds as recorded in evidence; texts outside the alphabet are not covered; wedge detection is the wrapper's wall-clock cap", "4 C01"),
- "C02": ("exploration", "small-scope exhaustive enumeration of expression trees against an independent reference fold",
-         "All expression trees up to 2 (quick) / 3 (thorough) binary operators with unary/ABS/INT wrappers, each printed with minimal and redundant parentheses by the real interpreter and compared with a reference fold.",
-         "f64 Display and powf shared with the subject; arithmetic on two strings and unary plus on a string not compared", "4 C02"),
- "C18": ("model_checking", "full sweep of all 2^33 generator states through the real step function + exhaustive short call sequences through the interpreter",
-         "All 2^33 states of the generator are stepped through the real Rng::random and compared with the closed form; seeds beyond 2^33 on a boundary set (thorough: all 2^24 top-bit patterns); every sequence of <= 6 RND calls over 6 argument values x 5 seeds through PRINT.",
-         "seeds >= 2^33 rest on the modular-reduction argument plus the enumerated high-bit patterns", "4 C18"),
- "C03": ("exploration", "small-scope exhaustive enumeration of programs (statement sequences x ':'-join layouts) run on the real interpreter and on an independent reference machine",
-         "Every statement sequence up to the length bound over a 50-template menu (plus deeper sequences over core menus), in the explored join layouts, is run on the real interpreter and on the reference machine; printed output, error kind and error line must agree.",
-         "the reference machine src/refmodel.rs is the oracle; long-running programs are compared on the common output prefix", "4 C03"),
- "C04": ("model_checking", "explicit-state BFS over edit histories on the real interpreter to an empty frontier (full closure) + exhaustive unrolled edit sequences, against a BTreeMap reference",
-         "All stores reachable over the edit alphabet (6 number spellings incl. u64 extremes x 5 texts, LIST, RUN) are visited; after every event LIST, RUN order and the two internal indexes are compared with a last-writer-wins map; every sequence of <= 4 (quick) / 6 (thorough) edits over three keys is also run without state merging.",
-         "line texts limited to the alphabet", "4 C04"),
- "C05": ("exploration", "small-scope exhaustive enumeration of files (line menu, character alphabet) + nesting grid in isolated children",
-         "Every file of <= n menu lines, every string of <= m characters over a 12-character alphabet and a nesting-depth grid are analysed by the real analyzer; it must return, give one token list per line, and every diagnostic must map to an in-bounds, character-aligned position on the line it names.",
-         "file contents limited to the recorded menus", "4 C05"),
- "C12": ("exploration", "deviation-bounded exhaustive perturbation (blank insertion/deletion, case flips) of all short token-spelling sequences, compared by token sequence",
-         "For every base line of <= n token spellings, every single perturbation and every pair within a 6-byte window (all pairs for 1-spelling lines), plus crunched/spread/lower/upper forms, must tokenize to the same token sequence.",
-         "protected regions are marked in the spelling table", "4 C12"),
- "C13": ("exploration", "exhaustive enumeration of lines over an atom alphabet with a re-tokenization oracle",
-         "Every concatenation of <= n atoms is tokenized by the real tokenizer; ranges must be in bounds, character-aligned, ordered, blank-free at the ends and re-tokenize to exactly their token; error positions must be in bounds with a tokenizable prefix.",
-         "atoms limited to the recorded alphabet", "4 C13"),
- "C14": ("exploration", "exhaustive enumeration of storable lines (token adjacencies, numeral spellings, DATA item lists, REM) with a LIST/reload fixed-point and behaviour oracle",
-         "Every enumerated program is stored, listed, reloaded from its listing into a fresh interpreter and listed again; listings, stored tokens, RUN transcripts and the DATA items a reader block sees must be identical.",
-         "RUN compared with a 300-turn cap; one recorded known finding (symbol followed by a leading-dot numeral)", "4 C14"),
- "C06": ("exploration", "small-scope exhaustive enumeration of statement contexts x expression trees; analyzer verdict vs execution under every preset",
-         "Every statement context x expression tree (<= 1 operator everywhere, <= 2 in the deep contexts; thorough: <= 2 everywhere) is analysed by the real analyzer and executed by the real interpreter under all four variable presets; accepted programs must never fail with syntax / type mismatch / undefined statement, rejected straight-line statements must fail.",
-         "programs satisfy the precondition on DEF placement by construction", "4 C06"),
- "C07": ("model_checking", "exhaustive schedule enumeration (all break sets up to k boundaries x inspection menu) on the real interpreter, self-differential against the uninterrupted run",
-         "For 10 fixed programs, every set of <= 2 (quick) / 3 (thorough) turn boundaries is used as break points, each with every inspection statement, followed by CONT; the answered-request transcript and outcome must equal the uninterrupted run. The STOP+assignment clause is checked at every line position with 5 assignments.",
-         "programs limited to the fixed set; boundaries capped at 60 per program", "4 C07"),
- "C08": ("exploration", "exhaustive enumeration of INPUT placements x targets x replies x REENTER prefixes, self-differential (INPUT vs STOP vs assignment variants)",
-         "Every placement (12) x target (4) x reply (12) x unsuitable-reply prefix is run on the real interpreter and compared with the same program where INPUT is replaced by STOP (state at suspension) and by the assignment of the first reply item (resumption).",
-         "what a numeric-looking reply becomes in a string variable is not compared", "4 C08"),
- "C09": ("model_checking", "every turn of every enumerated program instrumented with hook counters and kept in stuttering lockstep with the one-statement-per-step reference machine; hand-back at every boundary of non-terminating programs",
-         "Per host call: statement entries <= 1 + IF dispatches, <= 1 print record, trace records = entries, token reads within a fixed multiple of the line length; the (output, variables) observable after each call must be reachable by zero or one reference step; 8 non-terminating programs are broken into at each of their first 200 boundaries.",
-         "work measured as token-cursor reads (hook counters)", "4 C09"),
- "C10": ("model_checking", "BFS over session histories on the real interpreter with a differential RUN probe in every distinct idle state",
-         "For three observer programs, every history up to the depth bound over the dirtying alphabet is explored with canonical-state dedup; in every distinct idle state RUN (same seed, same replies) must produce the transcript and final state of a fresh interpreter holding the same program.",
-         "equal canonical snapshots have equal futures", "4 C10"),
- "C11": ("model_checking", "exhaustive enumeration of suspension points x edits x probes (pairs in thorough) on the real interpreter",
-         "Every turn boundary of four suspension programs x 7 edits x 8 probes: after a successful edit CONT/RETURN/NEXT/FN/READ must report the stale reference as gone, variables are kept and the snapshot holds no runtime reference; after a rejected edit every probe behaves as without it.",
-         "identical-text replacement and deletion of an absent line are not counted as changes", "4 C11"),
- "C15": ("exploration", "exhaustive enumeration of well-formed files (library level) and of all option combinations x both modes on the built abasic binary",
-         "Every file of <= 3 (quick) / 4 (thorough) well-formed menu lines is loaded through the analyzer and, separately, typed line by line: LIST, RUN transcript and final state must be equal. The abasic binary is run for 12 programs x 2^3 option sets in file mode and piped mode; stdout, runtime stderr lines and exit status must agree and the options must take effect.",
-         "NO_COLOR, piped stdio, scratch HOME; programs do not call RND", "4 C15"),
- "C16": ("model_checking", "invariant checked on the complete state snapshot after every host call of a BFS over a writer-focused alphabet, an exhaustive DIM subscript sweep and cap programs around the limits",
-         "J (<=32 frames, <=32 distinct loops, cells = product of dims <= 10000, name-suffix typing of every stored value and binding) is evaluated in every state reached; attempts to exceed a cap must give OUT OF MEMORY and leave the interpreter usable; all 1..3-tuples over 10 boundary subscripts; cap programs for n = 31, 32, 33.",
-         "snapshot hook renders every stored value", "4 C16"),
- "C17": ("exploration", "exhaustive enumeration of programs x 8 routes to the 4 (tracing, warnings) configurations; trace and warning records compared with the reference machine",
-         "Every grammar program of the families and the fixed programs are run under all eight routes; filtered transcripts, outcomes and final states must be identical, trace records (collapsed) must equal the reference machine's visited lines and warning records its list of undeclared reads.",
-         "expectations for trace/warnings come from src/refmodel.rs", "4 C17"),
- "C19": ("model_checking", "BFS over page events where the real main.ts (node vm, types stripped) drives the real JsInterpreter over a synchronous RPC channel, with a mirror core interpreter as oracle",
-         "All page event histories up to the depth bound from 9 start-up configurations: no adapter call may panic, the page script may not throw, and every value the adapter returns (state, output records, error text with source line and caret) must equal what the core interpreter produces for the same calls; after NEW the adapter is probed against a fresh one.",
-         "ui.ts (DOM) is stubbed; at most two timers pending", "4 C19"),
- "C20": ("exploration", "exhaustive enumeration of open/change/semantic-token histories over a document set against the abasic-lsp binary over stdio, compared with the in-process analyzer (UTF-16 conversion done by the driver)",
-         "Every document (<= 2 / 3 menu lines + 40 non-ASCII documents) is opened and tokenised, every ordered pair over a 30-document core is opened then changed; the server must answer every message, diagnostics must equal the analyzer's messages, and all ranges and tokens must lie inside their line in UTF-16 units with legend types.",
-         "a missing answer within 8 s counts as a dead server", "4 C20"),
+ 'C01': ('model_checking', 'bounded exhaustive BFS over host-call histories on the real interpreter (canonical-state dedup) + exhaustive line-shape sweep + recursion-depth probe grid in isolated children',
+         'Every protocol-respecting host-call history up to the depth bound over the event alphabet (from 4 root states), every line of <= n atoms over the atom alphabet (immediate and as a stored line + RUN), and a grid of nesting routes x depths x 2 stack sizes (isolated child processes) were executed on the real code. Oracle per call: returns (wedge watchdog), no panic, errors are values after which the interpreter is idle and still runs a statement, every error renders as source line + caret (a line that does not tokenize as the line just entered), nesting counter back at 0. Alphabets and counts: evidence file and DESIGN.md 4a.',
+         'alphabets / bounds as recorded in evidence; texts outside the alphabets are not covered', '4 C01'),
+ 'C02': ('exploration', 'small-scope exhaustive enumeration of expression trees against an independent reference fold',
+         'All expression trees up to 2 (quick) / 3 (thorough) binary operators with unary / ABS / INT wrappers, each printed with minimal and with redundant parentheses by the real interpreter and compared with a reference fold; plus the same one-operator trees in long-lived sessions, a numeral pass against the nearest double, a string-order / truth-value pass, whole and fractional powers, INT / ABS at the integer-range edges.',
+         'f64 Display and powf shared with the subject; arithmetic on two strings and unary plus on a string not compared', '4 C02'),
+ 'C03': ('exploration', "small-scope exhaustive enumeration of programs (statement sequences x ':'-join layouts) run on the real interpreter and on an independent reference machine",
+         "Every statement sequence up to the family's length bound over ten template menus (full, core, loop, nest, data, fn, array, branch, quiet, forvar), in the explored ':'-join layouts, is run on the real interpreter and on the reference machine; printed output, error kind and error line must agree. Plus a session pass (programs run one after the other in one interpreter) and an array sweep (every shape of 1-3 dimensions, every subscript tuple read and written).",
+         'the reference machine src/refmodel.rs is the oracle; long-running programs are compared on the common output prefix', '4 C03'),
+ 'C04': ('model_checking', 'explicit-state BFS over edit histories on the real interpreter to an empty frontier (full closure) + exhaustive unrolled edit sequences, against a BTreeMap reference',
+         "All stores reachable over the edit alphabet (number spellings incl. padded, indented and the u64 extremes x line texts incl. rejected ones, LIST, RUN) are visited to an empty frontier; after every event LIST (against the entered text's own fresh listing), RUN order and the two internal indexes are compared with a last-writer-wins map; every sequence of <= 3 (quick) / 5 (thorough) edits over three keys is also run without state merging, with LIST after every edit and the same lines loaded as a file.",
+         'line texts limited to the alphabet', '4 C04'),
+ 'C05': ('exploration', 'small-scope exhaustive enumeration of files (line menu, character alphabet) + nesting grid in isolated children',
+         'Every file of <= n menu lines (with per-line attribution), long files, every string of <= m characters over two character alphabets (ASCII structure; Unicode look-alikes of blanks and digits, byte order mark), every menu file behind each exotic character, and a nesting-depth grid are analysed by the real analyzer; it must return, give one token list per line, and every diagnostic must map to an in-bounds, character-aligned position on the line it names.',
+         'file contents limited to the recorded menus', '4 C05'),
+ 'C06': ('exploration', 'small-scope exhaustive enumeration of statement contexts x expression trees; analyzer verdict vs execution under every preset',
+         'Every statement context (incl. DEF bodies, later subscripts, second stores, code after END, IF as a later statement, nested IFs, INPUT with replies) x expression tree (<= 1 operator everywhere, <= 2 in the deep contexts; thorough: <= 2 everywhere) is analysed by the real analyzer and executed by the real interpreter under all four variable presets; accepted programs must never fail with syntax / type mismatch / undefined statement, rejected straight-line statements must fail (also from a fresh state, also as a redefinition inside a file).',
+         'programs satisfy the precondition on DEF placement by construction', '4 C06'),
+ 'C07': ('model_checking', 'exhaustive schedule enumeration (all break sets up to k boundaries x inspection menu) on the real interpreter, self-differential against the uninterrupted run',
+         'For 12 fixed programs, every set of <= 2 (quick) / 3 (thorough) turn boundaries is used as break points, each with every inspection statement, followed by CONT; transcript, outcome and final interpreter state must equal the uninterrupted run. Grammar pass: every program of the core / branch / input families x every single boundary x {CONT, failing inspection + CONT}. STOP + assignment against the assignment written in place, at every line position and in nine placements.',
+         'boundaries capped at 60 per fixed program and 30 per grammar program (runs cut by the cap are compared on the common prefix)', '4 C07'),
+ 'C08': ('exploration', 'exhaustive enumeration of INPUT placements x targets x replies x REENTER prefixes, self-differential (INPUT vs STOP vs assignment variants)',
+         'Every (placement, target, reply, REENTER prefix) combination is run with INPUT and compared with the STOP variant (suspension) and the assignment variant (resumption); every reply of <= 4 (quick) / 5 (thorough) atoms to three kinds of target and every program of the INPUT family with five reply scripts are compared with the reference machine (transcript, end, variables).',
+         'what a numeric-looking reply becomes in a string variable, and whether an empty item next to a separator counts as an item, are not compared', '4 C08'),
+ 'C09': ('model_checking', 'every turn of every enumerated program instrumented with hook counters and kept in stuttering lockstep with the one-statement-per-step reference machine; hand-back at every boundary of non-terminating programs',
+         'Every turn of every enumerated program (fixed set, core / full / quiet / input families, non-terminating set, immediate submissions in six kinds of idle state) is instrumented with hook counters (statement entries, IF dispatches, token reads) and kept in stuttering lockstep with the one-statement-per-step reference machine; break + CONT and hand-back at every boundary of the non-terminating programs.',
+         'work measured as token-cursor reads (hook counters)', '4 C09'),
+ 'C10': ('model_checking', 'BFS over session histories on the real interpreter with a differential RUN probe in every distinct idle state',
+         "For four observer programs (one empty) every session history over the event alphabet (incl. edits, a generator-advancing statement; warnings on) up to the depth bound is explored; in every distinct idle state RUN (three spellings) is compared with a fresh interpreter built from the listing and given the session's generator state, and the generator state after the run must lie on the documented sequence from the state before.",
+         'equal canonical snapshots have equal futures', '4 C10'),
+ 'C11': ('model_checking', 'exhaustive enumeration of suspension points x edits x probes (pairs in thorough) on the real interpreter',
+         "For five suspension programs, every turn boundary (and 'never run') x eight edits x four pre-edit configurations x nine probes (thorough: all ordered probe pairs): after an accepted edit CONT / RETURN / NEXT / FN / READ must behave as the property says and variables are kept; after a rejected edit every probe must answer as without the edit.",
+         'identical-text replacement and deletion of an absent line are not counted as changes', '4 C11'),
+ 'C12': ('exploration', 'deviation-bounded exhaustive perturbation (blank insertion/deletion, case flips) of all short token-spelling sequences, compared by token sequence',
+         'For every base line of <= 3 token spellings, every single perturbation (blank / tab insertion, blank deletion, case flip, a run of 20 blanks) and every pair within a 6-byte window (all pairs for 1-spelling lines), plus crunched / spread / wide / lower / upper forms, must tokenize to the same token sequence.',
+         'protected regions are marked in the spelling table', '4 C12'),
+ 'C13': ('exploration', 'exhaustive enumeration of lines over an atom alphabet with a re-tokenization oracle',
+         "Every concatenation of <= n atoms is tokenized by the real tokenizer; ranges must be in bounds, character-aligned, ordered, blank-free at the ends and re-tokenize to exactly their token; error positions must be in bounds with a tokenizable prefix. Interpreter route (lines entered after a failed command: no program line, the entered line shown, caret under the tokenizer's position) and analyzer route (one token list per file line, ranges equal to the tokenizer's).",
+         'atoms limited to the recorded alphabet', '4 C13'),
+ 'C14': ('exploration', 'exhaustive enumeration of storable lines (token adjacencies, numeral spellings, DATA item lists, REM) with a LIST/reload fixed-point and behaviour oracle',
+         'Every enumerated program is stored, listed, reloaded from its listing (typed, and loaded as a source file) into a fresh interpreter and listed again; listings, stored tokens, RUN transcripts and the DATA items a reader block sees must be identical; LIST must follow edits; sessions with history (DATA read, lines replaced) must run like their own listing in a fresh interpreter.',
+         'RUN compared with a 300-turn cap; one recorded known finding (symbol followed by a leading-dot numeral)', '4 C14'),
+ 'C15': ('exploration', 'exhaustive enumeration of well-formed files (library level) and of all option combinations x both modes on the built abasic binary',
+         'Library level: every file of <= 3 (quick) / 4 (thorough) menu lines loaded with and without the static check against the same lines typed in (listing, RUN transcript, final state). Process level: 19 programs x 8 option sets x {abasic FILE, piped interactive session} on the built binary, compared on program output, warnings, trace records, exit status.',
+         'NO_COLOR, piped stdio, scratch HOME; CLI programs do not call RND', '4 C15'),
+ 'C16': ('model_checking', 'invariant checked on the complete state snapshot after every host call of a BFS over a writer-focused alphabet, an exhaustive DIM subscript sweep and cap programs around the limits',
+         "The invariant (caps, cell counts, name-suffix typing, nesting counter) is evaluated on the complete snapshot after every host call of a BFS over a writer-focused alphabet, of a DIM subscript sweep, of cap programs around 32 on four routes, of sessions stopped with 30-32 frames held, and of every loop / subroutine grammar program, whose open loops and frames after the run must not exceed the reference machine's.",
+         'snapshot hook renders every stored value', '4 C16'),
+ 'C17': ('exploration', 'exhaustive enumeration of programs x 8 routes to the 4 (tracing, warnings) configurations; trace and warning records compared with the reference machine',
+         "Every program (fixed set, ten grammar families, INPUT family with reply scripts) is run under 8 routes to the 4 (tracing, warnings) configurations: everything but trace / warning records and the final state must be identical; traces (collapsed) and warnings must equal the reference machine's; tracing switched on at a breakpoint, re-entry by GOTO, break + CONT under tracing; hand-derived cases with empty statements and lazily collected output.",
+         'expectations for trace/warnings come from src/refmodel.rs', '4 C17'),
+ 'C18': ('model_checking', 'full sweep of all 2^33 generator states through the real step function + exhaustive short call sequences through the interpreter',
+         'All 2^33 states of the generator are stepped through the real Rng::random and compared with the closed form; seeds beyond 2^33 on a boundary set (thorough: all 2^24 top-bit patterns); every sequence of <= 6 RND calls over 6 arguments, and of <= 4 items over 12 (negative zero, calls the parser rejects, re-seedings of a used interpreter), x 5 seeds through PRINT, also after a program DEFining RND has run; nested RND, RUN, core vs web adapter.',
+         'seeds >= 2^33 rest on the modular-reduction argument plus the enumerated high-bit patterns', '4 C18'),
+ 'C19': ('model_checking', 'BFS over page events where the real main.ts (node vm, types stripped) drives the real JsInterpreter over a synchronous RPC channel, with a mirror core interpreter as oracle',
+         'The real main.ts (types stripped, node vm) drives the real JsInterpreter natively over a synchronous RPC channel; every history of page events (submitted lines, ctrl-c, timer ticks) up to the depth bound from 11 start-up configurations is explored; every adapter call is compared with a mirror core interpreter (state, output records with types, error text + source line + caret), no call may trap, NEW must yield a fresh interpreter.',
+         'ui.ts (DOM) is stubbed; at most two timers pending', '4 C19'),
+ 'C20': ('exploration', 'exhaustive enumeration of open/change/semantic-token histories over a document set against the abasic-lsp binary over stdio, compared with the in-process analyzer (UTF-16 conversion done by the driver)',
+         "Histories of didOpen / didChange (single and multi-change) / semanticTokens over the document set (menu files with LF and CR LF, non-ASCII and Unicode-blank documents), incl. re-open, trailing-line changes, a second document under a case-variant URI and clients with different capabilities, are sent to the abasic-lsp binary over stdio; the server must answer each, diagnostics must equal the in-process analyzer's (UTF-16 columns), every range and token must lie inside the document with a type from the advertised legend.",
+         'a missing answer within 8 s counts as a dead server', '4 C20'),
 }
 
 NOT_YET = {}
